@@ -462,4 +462,19 @@ impl MintBuilder {
             None
         })
     }
+
+    /// key hashes that have to sign because of the mint: the signers of every minting script, inline or referenced
+    pub(crate) fn get_required_signers(&self) -> Ed25519KeyHashes {
+        let mut set = Ed25519KeyHashes::new();
+        for script_mint in self.mints.values() {
+            let signers = match script_mint {
+                ScriptMint::Native(native_mints) => native_mints.script.required_signers(),
+                ScriptMint::Plutus(plutus_mints) => plutus_mints.script.get_required_signers(),
+            };
+            if let Some(signers) = signers {
+                set.extend_move(signers);
+            }
+        }
+        set
+    }
 }
